@@ -335,9 +335,30 @@ func (o *oracleC10) before(c *stepCtx) {
 			}
 		}
 		var r Result
-		verifrt.Shadow(func() { r = execOp(sw, op) })
+		o.shadow(c, func() { r = execOp(sw, op) })
 		c.shRes = &r
 		o.cnt["reused_destination_steps"]++
+		return
+	}
+	if op.Z < 0 && len(op.A) > 0 && !strings.HasPrefix(op.Name, "c.") && opInfo[op.Name].nargs == len(op.A) {
+		// getters: what they return is a function of the observable value of their
+		// operand(s), whatever history produced it (no cached or stale internal
+		// field may show through): same call on operands rebuilt from scratch
+		sw := &World{V: make([]*decimal.Decimal, len(c.w.V))}
+		for _, a := range op.A {
+			if sw.V[a] == nil {
+				var y *decimal.Decimal
+				verifrt.Shadow(func() { y = rebuild(c.w.V[a]) })
+				if y == nil {
+					return
+				}
+				sw.V[a] = y
+			}
+		}
+		var r Result
+		o.shadow(c, func() { r = execOp(sw, op) })
+		c.shRes = &r
+		o.cnt["getter_steps_on_rebuilt_operands"]++
 		return
 	}
 	if op.Z < 0 || !opInfo[op.Name].writes {
@@ -405,9 +426,43 @@ func (o *oracleC10) before(c *stepCtx) {
 		o.cnt["aliased_steps"]++
 	}
 	var r Result
-	verifrt.Shadow(func() { r = execOp(sw, &sop) })
+	o.shadow(c, func() { r = execOp(sw, &sop) })
 	c.shRes = &r
 	c.shObs = observe(sw.V[n])
+}
+
+// shadow runs the reference execution on fresh memory; in one scenario out of
+// four also from a cold start of the package-level state (tables, caches and
+// memos the library may keep between calls), which is put back afterwards.
+func (o *oracleC10) shadow(c *stepCtx, f func()) {
+	if c.sc.Seed%4 != 1 {
+		verifrt.Shadow(f)
+		return
+	}
+	o.cnt["cold_start_reference_steps"]++
+	saved := decimal.VerifSaveGlobals()
+	decimal.VerifResetGlobals()
+	defer decimal.VerifLoadGlobals(saved)
+	verifrt.Shadow(f)
+}
+
+// rebuild returns a Decimal that has everything observable in common with x
+// (value, sign, precision, mode, accuracy) and nothing else: it is decoded from
+// x's encoding into a zero Decimal.
+func rebuild(x *decimal.Decimal) *decimal.Decimal {
+	defer func() { _ = recover() }()
+	if x.Prec() > maxWorkPrec {
+		return nil
+	}
+	enc, err := x.GobEncode()
+	if err != nil {
+		return nil
+	}
+	y := new(decimal.Decimal)
+	if y.GobDecode(ownBytes(enc)) != nil {
+		return nil
+	}
+	return y
 }
 
 func (o *oracleC10) after(c *stepCtx) *ViolationRec {
@@ -451,7 +506,10 @@ func (o *oracleC10) after(c *stepCtx) *ViolationRec {
 	}
 	if op.Z < 0 {
 		if live.Ret != sh.Ret {
-			return fail("result-depends-on-aliasing-or-history", "conversion into a destination used before = %q\n  into a fresh destination             = %q", live.Ret, sh.Ret)
+			if op.Name == "IntTo" || op.Name == "RatTo" || op.Name == "FloatTo" {
+				return fail("result-depends-on-aliasing-or-history", "conversion into a destination used before = %q\n  into a fresh destination             = %q", live.Ret, sh.Ret)
+			}
+			return fail("result-depends-on-aliasing-or-history", "on the operand(s) as the history left them  = %q\n  on operand(s) rebuilt from their observable value = %q", live.Ret, sh.Ret)
 		}
 		return nil
 	}
